@@ -83,7 +83,12 @@ def solve_csr_dense(matrix: Union[CSR, Dia], target: Dense, method=None,
 
     options = options.copy()
     M = matrix.as_scipy()
-    if options.pop("csc", False) or isinstance(matrix, Dia):
+    if (
+        options.pop("csc", False)
+        or isinstance(matrix, Dia)
+        or method == "splu"
+    ):
+        # splu factorises CSC matrices and warns when it has to convert
         M = M.tocsc()
 
     with warnings.catch_warnings():
